@@ -20,9 +20,11 @@ static cat_return_state rows_policy(struct hcall *h)
         return ++rows_seen < rows_wanted ? CAT_RETURN_STATE_DATA_NEXT : CAT_RETURN_STATE_DATA_OK;
 }
 static int units_seen;
+static bool via_event;      /* the READ text is taken from an unsolicited READ event of the command (separate event buffer, larger than the command buffer; long command name) */
 static void on_unit(bool isA, bool raw, const char *text, size_t len, bool a, bool b)
 {
         (void)raw; (void)a; (void)b;
+        if (!isA && via_event && !got_data && strncmp(text, "+RT", 3) == 0 && len < sizeof data_unit) { memcpy(data_unit, text, len + 1); data_len = len; got_data = true; return; }
         if (!isA) return;
         if (strcmp(text, "OK") == 0 || strcmp(text, "ERROR") == 0) { ncodes++; last_ok = text[0] == 'O'; return; }
         if (units_seen++ <= row_pick && len < sizeof data_unit) { memcpy(data_unit, text, len + 1); data_len = len; got_data = true; }      /* the row that is fed back */
@@ -59,7 +61,10 @@ static void round_trip(int capmode)
         w_begin();
         with_events = chance(35);
         struct cat_command *a = w_group(with_events ? 2 : 1, false);
-        a[0].name = xstr("+RT"); a[0].need_all_vars = chance(50);
+        via_event = !with_events && capmode == 0 && chance(15);
+        static const char LONGNAME[] = "+RT_A_RATHER_LONG_COMMAND_NAME_0123456789";
+        a[0].name = xstr(via_event && chance(70) ? LONGNAME : "+RT"); a[0].need_all_vars = chance(50);
+        size_t nlen = strlen(a[0].name);
         if (with_events) {      /* an unsolicited READ of another command is formatted and flushed while the round trip is in progress */
                 a[1].name = xstr("+EV");
                 struct cat_variable *ev = w_vars(&a[1], 2);
@@ -67,7 +72,7 @@ static void round_trip(int capmode)
                 ev[1].type = CAT_VAR_BUF_STRING; { uint8_t *d = w_vdata(&ev[1], 12); memcpy(d, "ev\"t,\\x", 8); }
         }
         struct cat_variable *v = w_vars(&a[0], (size_t)NV);
-        rows_wanted = chance(25) ? 2 + (int)rn(3) : 1; rows_seen = 0; row_pick = (int)rn((unsigned)rows_wanted); units_seen = 0;
+        rows_wanted = (!via_event && chance(25)) ? 2 + (int)rn(3) : 1; rows_seen = 0; row_pick = (int)rn((unsigned)rows_wanted); units_seen = 0;
         if (rows_wanted > 1) { a[0].read = h_read; POLICY = rows_policy; CNT("multi_row_reads"); }
         for (int j = 0; j < NV; j++) { v[j].type = (cat_var_type)SP[j].type; v[j].access = (cat_var_access)ACC[j]; uint8_t *d = w_vdata(&v[j], SP[j].size); memcpy(d, SP[j].val, SP[j].size); memcpy(orig[j], d, SP[j].size); }
         /* capacity: the response text is "+RT=" + args; the write needs args+1 <= cap.  capmode 0 generous, 1 exactly fitting the READ text, 2 one more */
@@ -76,20 +81,22 @@ static void round_trip(int capmode)
         if (capmode && tl > 0) cap = (size_t)tl + 1 + (size_t)(capmode - 1);
         if (cap < 8) cap = 8;
         bool shared = chance(50);
-        w_buffers(shared ? cap * 2 + rn(2) : cap, shared, with_events ? 200 : 0);
+        if (via_event) { shared = false; if (tl > 0) cap = (size_t)tl - nlen + rn(3); if (cap < 8) cap = 8; }      /* the command buffer just holds the argument list: the event line (name included) is longer than it */
+        w_buffers(shared ? cap * 2 + rn(2) : cap, shared, via_event ? 4300 : with_events ? 200 : 0);
         w_init((int)rn(2));
         ON_UNIT = on_unit;
-        in_reset(); in_puts("AT+RT?\n"); out_reset(); units_reset(); got_data = false; ncodes = 0; units_seen = 0;
+        in_reset(); if (!via_event) { in_puts("AT"); in_puts(a[0].name); in_puts("?\n"); } out_reset(); units_reset(); got_data = false; ncodes = 0; units_seen = 0;
+        if (via_event) { (void)cat_trigger_unsolicited_event(W.at, &a[0], CAT_CMD_TYPE_READ); ncodes = 1; last_ok = 1; CNT("read_texts_taken_from_an_event"); }
         if (!service_with_event(1)) { inconclusive("no quiescence"); return; }
-        if (!got_data || ncodes != 1 || last_ok != 1 || strncmp(data_unit, "+RT=", 4) != 0) {
+        if (!got_data || ncodes != 1 || last_ok != 1 || strncmp(data_unit, a[0].name, nlen) != 0 || data_unit[nlen] != '=') {
                 if (capmode == 0) viol("C07", "read-refused", "AT+RT? with generous capacity was not answered with a data line and OK");
                 else if (tl > 0 && W.capA >= (size_t)tl + 1) viol("C07", "read-refused", "AT+RT? was not answered although the text of %d bytes fits the command capacity of %zu: nothing to feed back", tl, W.capA);
                 else CNT("read_did_not_fit");
                 return;
         }
-        arglen = data_len - 4; memcpy(argtext, data_unit + 4, arglen);
+        arglen = data_len - (nlen + 1); memcpy(argtext, data_unit + nlen + 1, arglen);
         for (int j = 0; j < NV; j++) { if (ACC[j] != CAT_VAR_ACCESS_READ_WRITE) continue; uint8_t *d = v[j].data; for (size_t b = 0; b < SP[j].size; b++) d[b] = (uint8_t)(SP[j].type == CAT_VAR_BUF_STRING ? 0xA5 + b : d[b] ^ 0x5A); }
-        in_reset(); in_puts("AT+RT="); in_put(argtext, arglen); in_putc('\n'); out_reset(); units_reset(); got_data = false; ncodes = 0; units_seen = 1000;
+        in_reset(); in_puts("AT"); in_puts(a[0].name); in_putc('='); in_put(argtext, arglen); in_putc('\n'); out_reset(); units_reset(); got_data = false; ncodes = 0; units_seen = 1000;
         if (!service_with_event(1)) { inconclusive("no quiescence"); return; }
         CNT("round_trips"); if (with_events) CNT("round_trips_with_concurrent_events");
         { bool ro = false; for (int j = 0; j < NV; j++) if (ACC[j] != CAT_VAR_ACCESS_READ_WRITE) ro = true; if (ro) CNT("round_trips_with_read_only_variables_in_the_list"); }
